@@ -221,7 +221,8 @@ def mutesSpec (σ : Inst) (now : Int) (lsTok : String) (l : LabelSet) (v by_ : S
 def stepCommon (cfg : Cfg) (σ : Inst) (op obs : List String) : Option (Inst × List Msg) :=
   match op, obs with
   | [kind, now, id, a, e, c, sets, big], [res, rid, bcs, ver, dmp] =>
-    if kind ≠ "set" ∧ kind ≠ "post" then none else
+    -- `setq` = `set` whose argument is the object a lookup by id returned, edited by the caller (harness/silx `setq`)
+    if kind ≠ "set" ∧ kind ≠ "post" ∧ kind ≠ "setq" then none else
     let now := toInt! now
     let inp := parseIn id a e c sets
     let cur := parseMeshes dmp
